@@ -237,6 +237,11 @@ const CHAIN_SEEDS: &[&str] = &[
     "const a, b, c = 1, assert(x)\nconst d, e = assert(y, 'm')\nconst f, g = debug.profilebegin('p')\nlocal h, i = assert(z)\nreturn a, b, c, d, e, f, g, h, i\n",
     // a line comment ending in a word directly before every construct a rule replaces by generated text
     "local a = -- the text string\n    `x{v}`\nif true then -- then word\n    f()\nelse -- else word\n    g()\nend\nif false then -- dead\n    f()\nelse -- kept word\n    g()\nend\nlocal b = -- cond word\n    if a then 1 else 2\nt.x -- target word\n    += 1\nlocal c = -- call word\n    obj:method()\nlocal d = -- sqrt word\n    math.sqrt(4)\nlocal e = -- idx word\n    t[\"k\"]\nlocal f = -- num word\n    0b11 // 2\nlocal g = -- assert word\n    assert(a, \"m\")\nlocal h = -- req word\n    require(\"./dep\")\nfor i = 1, 2 do -- loop word\n    continue -- cont word\nend\nfunction t:m() -- body word\n    return self -- ret word\nend\nreturn G -- global word\n",
+    // a shebang line and a byte order mark: whatever is accepted must still come out as text that parses, also after a rule
+    // wrote something in front of it
+    "#!/usr/bin/env lua\nlocal a = 1 -- c\nreturn a\n",
+    "\u{feff}local a = 1 -- c\nreturn a\n",
+    "\u{feff}return 'é'\n",
     // numeric strings in hexadecimal floating point form (C99 strtod accepts them)
     "return '0x1p64' + 0, -'0x10p60', '0x3p63' * 1, '0x1p4' .. '', '0xffp60' ^ 2, #'0x1p64', '0x1p64' == 1, '0x1P+2' + 1\n",
     "local a = f() --[[block word]] `x{v}` -- tail word\nlocal b = (g()) -- paren word\n;(h or i)() -- call word\nreturn a -- a word\n    , b -- b word\n",
